@@ -206,12 +206,29 @@ fn witness(name: &str) -> (String, String) {
             }
             verdict
         }
-        // D9c: control response with a completion code above 0x05: unreachable!() in CompletionCode::from
+        // D9c (fixed): a control response with a completion code above 0x05 used to reach unreachable!() in CompletionCode::from;
+        // now rejected with ControlMessageError::Unknown (decode and process), nothing written
         "D9c.completion_code_unreachable" => {
-            let pkt = packet_bytes(0x23, 0x34, 0x00, &[0x00, 0x02, 0x06, 0x01]);
-            match quiet(AssertUnwindSafe(|| c.decode_packet(&pkt).map(|(t, p)| (t, p.to_vec())))) {
-                Err(m) => ("reproduces".into(), format!("decode_packet({}) panics: {}", hex(&pkt), m)),
-                Ok(_) => ("fixed".into(), "returns a value".into()),
+            let mut verdict = ("fixed".to_string(), "responses with completion codes 0x06..0xFF are rejected with ControlMessageError::Unknown".to_string());
+            for cc in 0x06u8..=0xFF {
+                let pkt = packet_bytes(0x23, 0x34, 0x00, &[0x00, 0x02, cc, 0x01]);
+                let mut rb = [0xEEu8; 64];
+                let d = quiet(AssertUnwindSafe(|| c.decode_packet(&pkt).map(|(t, p)| (t, p.to_vec()))));
+                let pr = quiet(AssertUnwindSafe(|| c.process_packet(&pkt, &mut rb).map(|((t, p), n)| (t, p.to_vec(), n))));
+                let want = (MessageType::MCtpControl, libmctp::DecodeError::ControlMessage(libmctp::ControlMessageError::Unknown));
+                match (d, pr) {
+                    (Err(m), _) | (_, Err(m)) => { verdict = ("reproduces".into(), format!("decode/process_packet({}) panics: {}", hex(&pkt), m)); break; }
+                    (Ok(Err(e1)), Ok(Err(e2))) if e1 == want && e2 == want && rb.iter().all(|b| *b == 0xEE) => {}
+                    (Ok(a), Ok(b)) => { verdict = ("other".into(), format!("decode_packet({}) = {:?}, process_packet = {:?}", hex(&pkt), a.map(|x| x.1), b.map(|x| x.2))); break; }
+                }
+            }
+            verdict
+        }
+        // L1 (limitation outside the listed properties): the public conversion From<u8> for CompletionCode panics above 0x05
+        "L1.completion_code_from_panics" => {
+            match quiet(AssertUnwindSafe(|| CompletionCode::from(6u8) as u8)) {
+                Err(m) => ("reproduces".into(), format!("CompletionCode::from(6) panics: {}", m)),
+                Ok(v) => ("fixed".into(), format!("CompletionCode::from(6) = {}", v)),
             }
         }
         // D10a (fixed): an accepted control request for a command the endpoint has no answer for used to hit
